@@ -65,6 +65,8 @@ fn rejected_menu(cfg: &Cfg, w: &World) -> Vec<(&'static str, Event)> {
                     v.push(("auth-failing-response-unreliable/corrupted", Event::Deliver { to: t.clone(), reply: Reply::plain(RClass::Success).with_mac(RMac::BadMi).with_fp(fp) }));
                     v.push(("auth-failing-response-unreliable/absent", Event::Deliver { to: t.clone(), reply: Reply::plain(RClass::Error(400)).with_fp(fp) }));
                     v.push(("auth-failing-response-unreliable/other-password", Event::Deliver { to: t.clone(), reply: Reply::plain(RClass::Success).with_mac(RMac::ShaOtherPass).with_fp(fp) }));
+                    v.push(("auth-failing-response-unreliable/corrupted", Event::Deliver { to: t.clone(), reply: Reply::plain(RClass::Error(400)).with_mac(RMac::BadSha).with_fp(fp) }));
+                    v.push(("auth-failing-response-unreliable/other-password", Event::Deliver { to: t.clone(), reply: Reply::plain(RClass::Error(420)).with_mac(RMac::MiOtherPass).with_fp(fp) }));
                 }
                 v.push(("both-macs-response", Event::Deliver { to: t.clone(), reply: Reply::plain(RClass::Success).with_mac(RMac::Both).with_fp(fp) }));
                 if !cfg.reliable() {
@@ -86,6 +88,19 @@ fn rejected_menu(cfg: &Cfg, w: &World) -> Vec<(&'static str, Event)> {
                 if !cfg.reliable() {
                     v.push(("auth-failing-response-unreliable/absent", Event::Deliver { to: t.clone(), reply: Reply::plain(RClass::Success).with_fp(fp) }));
                     v.push(("auth-failing-response-unreliable/other-password", Event::Deliver { to: t.clone(), reply: Reply::plain(RClass::Success).with_mac(RMac::MiOtherPass).with_fp(fp) }));
+                    v.push(("auth-failing-response-unreliable/corrupted", Event::Deliver { to: t.clone(), reply: Reply::plain(RClass::Error(500)).with_mac(RMac::BadMi).with_fp(fp) }));
+                    v.push(("auth-failing-response-unreliable/other-password", Event::Deliver { to: t.clone(), reply: Reply::plain(RClass::Error(420)).with_mac(RMac::ShaOtherPass).with_fp(fp) }));
+                    // challenges whose own integrity attribute does not verify: complete 401 / 438 carrying new realm, nonce
+                    // and algorithms that must NOT be adopted
+                    for (mac, pas, nonce) in [
+                        (RMac::BadMi, PasKind::Absent, NonceKind::Plain(21)),
+                        (RMac::MiOtherPass, PasKind::Absent, NonceKind::Plain(22)),
+                        (RMac::ShaOtherPass, PasKind::Md5Sha256, NonceKind::Cookie(true, true, 23)),
+                        (RMac::BadSha, PasKind::Sha256, NonceKind::Cookie(true, false, 24)),
+                    ] {
+                        v.push(("401-failing-auth-unreliable", Event::Deliver { to: t.clone(), reply: Reply::plain(RClass::Error(401)).with_chal(Chal { realm: true, nonce, pas }).with_mac(mac).with_fp(fp) }));
+                        v.push(("438-failing-auth-unreliable", Event::Deliver { to: t.clone(), reply: Reply::plain(RClass::Error(438)).with_chal(Chal { realm: false, nonce, pas }).with_mac(mac).with_fp(fp) }));
+                    }
                 }
             }
             Mech::None => {}
@@ -280,7 +295,7 @@ pub fn run(ctx: &RunCtx) -> i32 {
                             })
                             .collect()
                     };
-                    let same = if name.starts_with("auth-failing-response-unreliable") || name == "wrong-algorithm-response" {
+                    let same = if name.starts_with("auth-failing-response-unreliable") || name == "wrong-algorithm-response" || name.ends_with("failing-auth-unreliable") {
                         norm(&trace_a, target) == norm(&trace_b, target)
                     } else {
                         trace_a == trace_b
@@ -313,9 +328,9 @@ pub fn run(ctx: &RunCtx) -> i32 {
         rep,
         Finish {
             level: "model_checking",
-            rule: format!("breadth-first exploration of the real client to depth {} for 8 transport x mechanism x fingerprint configurations (limit 3) over {{Send, Timer, AdvanceTo, Deliver(accepted reply kinds of the mechanism incl. 401 / 438 challenges), every rejected-buffer kind: undecodable (garbage, truncated), request class, reply for an unknown id, reply for a finished id, bad / missing / misplaced FINGERPRINT, auth-failing response on unreliable transport (corrupted, absent, other password), both-MACs response, wrong-algorithm response, 401 without realm / nonce, 438 without nonce, indication failing authentication / without integrity}}. Direct oracle on every transition whose call returned Err: no events and a byte-identical canonical snapshot before/after, the only tolerated change being one added violated marker for a response on unreliable transport with credentials. Differential oracle at every visited state: a fixed continuation (all outstanding requests driven to their final outcome by the pending deadlines, one more exchange, RTO of the new request, final snapshot) is run with and without each rejected kind inserted and must produce identical observations (only TimedOut -> ProtectionViolated for the affected request may differ)", depth),
+            rule: format!("breadth-first exploration of the real client to depth {} for 8 transport x mechanism x fingerprint configurations (limit 3) over {{Send, Timer, AdvanceTo, Deliver(accepted reply kinds of the mechanism incl. 401 / 438 challenges), every rejected-buffer kind: undecodable (garbage, truncated), request class, reply for an unknown id, reply for a finished id, bad / missing / misplaced FINGERPRINT, auth-failing response on unreliable transport (corrupted, absent, other password), both-MACs response, wrong-algorithm response, 401 without realm / nonce, 438 without nonce, complete 401 / 438 challenges (new realm / nonce / algorithms) whose own integrity attribute fails, indication failing authentication / without integrity}}. Direct oracle on every transition whose call returned Err: no events and a byte-identical canonical snapshot before/after, the only tolerated change being one added violated marker for a response on unreliable transport with credentials. Differential oracle at every visited state: a fixed continuation (all outstanding requests driven to their final outcome by the pending deadlines, one more exchange, RTO of the new request, final snapshot) is run with and without each rejected kind inserted and must produce identical observations (only TimedOut -> ProtectionViolated for the affected request may differ)", depth),
             assumptions: vec!["the feature-gated snapshot renders every field of StunClient except the stateless encoder / decoder".into()],
-            required_symbols: vec!["bfs-configs", "rejected-and-unchanged", "marker-exception", "continuation-identical", "undecodable-garbage", "request-class", "reply-for-unknown-id", "reply-for-finished-id", "bad-fingerprint", "missing-fingerprint", "both-macs-response", "wrong-algorithm-response", "401-without-realm", "438-without-nonce", "indication-failing-auth"],
+            required_symbols: vec!["bfs-configs", "rejected-and-unchanged", "marker-exception", "continuation-identical", "undecodable-garbage", "request-class", "reply-for-unknown-id", "reply-for-finished-id", "bad-fingerprint", "missing-fingerprint", "both-macs-response", "wrong-algorithm-response", "401-without-realm", "438-without-nonce", "401-failing-auth-unreliable", "438-failing-auth-unreliable", "indication-failing-auth"],
             min_outcomes: 8,
             exhaustive: true,
             bounds: json!({"depth": depth}),
